@@ -399,6 +399,7 @@ example : Clean {} (fun _ => 1) (hits (fun i => i == 0) 0 exTable) := by
   rw [this]; simp
 example : ((hits (fun i => i == 0) 0 exTable).filterMap (urlOf {} (fun _ => 1))).getLast? = some exUrl := by
   decide +kernel
+example : strOk exUrl = true := by decide +kernel
 example : HostOk exUrl (b "httpbingo.org") := by
   refine ⟨rfl, ?_, ?_⟩ <;> decide +kernel
 example : portOf {} exUrl = 8443 ∧ hostArg { rewriteHost := true } exUrl (b "httpbingo.org") = some (b "httpbingo.org:8443") := by
